@@ -285,6 +285,31 @@ def run(tier, seed, replay=None):
             dist["extreme scales:" + kind_] = dist.get("extreme scales:" + kind_, 0) + 1
         except Exception as ex:
             V.fail("extreme core scales: %s raises %s" % (kind_, type(ex).__name__), dict(desc, exc=str(ex)[:200]))
+    # ---- norm() itself (the square root is outside the polynomial model): its gradient against torch.linalg.norm of the dense array on random float data, and at
+    # objects that are exactly zero (x * 0, x - x, zeros): torch's norm has the gradient 0 there, so (x*0).norm() + x.sum() has the gradient of x.sum()
+    for j in range(12 if tier == "quick" else 120):
+        d = rng.choice([1, 2, 3]); N = [rng.choice([2, 3]) for _ in range(d)]; ttm_ = j % 4 == 3
+        R_ = [1] + [rng.choice([1, 2]) for _ in range(d - 1)] + [1]
+        base = [torch.tensor(np.array([rng.gauss(0, 1) for _ in range(R_[k] * N[k] * (N[k] if ttm_ else 1) * R_[k + 1])]).reshape([R_[k], N[k]] + ([N[k]] if ttm_ else []) + [R_[k + 1]])) for k in range(d)]
+        kind_ = ["norm()", "(x*0).norm() + x.sum()", "(x - x).norm() + x.sum()", "norm()"][j % 4] if not ttm_ else ["norm()", "(x*0).norm() + x.sum()"][(j // 4) % 2]
+        desc = {"norm gradient": kind_, "N": N, "R": R_, "operator": ttm_}
+        try:
+            x_t = torchtt.TT([c.clone() for c in base]); torchtt.grad.watch(x_t)
+            val = x_t.norm() if kind_ == "norm()" else (((x_t * 0).norm() if kind_.startswith("(x*0)") else (x_t - x_t).norm()) + x_t.sum())
+            g = torchtt.grad.grad(val, x_t)
+            leaves = [c.clone().requires_grad_(True) for c in base]
+            D_ = leaves[0][0]
+            for c in leaves[1:]: D_ = torch.tensordot(D_, c, dims=([D_.dim() - 1], [0]))
+            D_ = D_[..., 0]
+            vd = torch.linalg.norm(D_.reshape(-1)) if kind_ == "norm()" else (torch.linalg.norm((D_ * 0).reshape(-1)) + D_.sum())
+            ref = torch.autograd.grad(vd, leaves)
+            if not (abs(float(val) - float(vd)) <= 1e-10 * max(1.0, abs(float(vd)))): V.fail("norm gradient block: the value differs from the dense value [%s]" % kind_, dict(desc, got=float(val), dense=float(vd)))
+            for k_, (a_, b_) in enumerate(zip(g, ref)):
+                if a_ is None or list(a_.shape) != list(b_.shape) or not (float((a_ - b_).abs().max()) <= 1e-9 * max(1.0, float(b_.abs().max()))):
+                    V.fail("the gradient of %s differs from the gradient of the dense expression" % kind_, dict(desc, core=k_, got="None" if a_ is None else str(a_.reshape(-1).tolist())[:160], want=str(b_.reshape(-1).tolist())[:160])); break
+        except Exception as ex:
+            V.fail("norm gradient block raises %s" % type(ex).__name__, dict(desc, exc=str(ex)[:200]))
+        dist["norm gradient: " + kind_] = dist.get("norm gradient: " + kind_, 0) + 1
     # ---- several read-outs of ONE watched object whose cores are not contiguous (column-major cores, cores that are slices of a larger buffer): watch,
     # apply_mask / full / sum / slicing one after the other, then grad.grad of the total: every read-out leaves the watched leaves in place
     for j in range(8 if tier == "quick" else 80):
@@ -309,11 +334,21 @@ def run(tier, seed, replay=None):
             D_ = leaves[0][0]
             for c in leaves[1:]: D_ = torch.tensordot(D_, c, dims=([D_.dim() - 1], [0]))
             D_ = D_[..., 0]
-            ref = torch.autograd.grad((torch.stack([D_[tuple(r)] for r in rows]) * w3).sum() + (D_ * wf).sum() + D_.sum(), leaves)
+            ref = torch.autograd.grad((torch.stack([D_[tuple(r)] for r in rows]) * w3).sum() + (D_ * wf).sum() + D_.sum(), leaves, retain_graph=True)
             for k_, (a_, b_) in enumerate(zip(g, ref)):
                 if a_ is None or list(a_.shape) != list(b_.shape) or not torch.equal(a_, b_):
                     V.fail("a watched object read several times (%s): grad.grad is not the gradient of the dense expression" % order, dict(desc, core=k_, got="None" if a_ is None else str(a_.tolist())[:200], want=str(b_.tolist())[:200])); break
             if not all(c.is_leaf and c.requires_grad for c in x_t.cores): V.fail("a watched object read several times: its cores are no longer the watched leaves", desc)
+            # a second scalar on the same watched object: grad.grad / grad_list return ITS gradient (not the sum of both), and the first result stays what it was
+            first = [None if a_ is None else a_.clone() for a_ in g]
+            val2 = 2.0 * x_t.sum() + (x_t.full() * wf).sum()
+            g2 = torchtt.grad.grad(val2, x_t) if j % 2 == 0 else torchtt.grad.grad_list(val2, [x_t])
+            ref2 = torch.autograd.grad(2.0 * D_.sum() + (D_ * wf).sum(), leaves)
+            for k_, (a_, b_) in enumerate(zip(g2, ref2)):
+                if a_ is None or list(a_.shape) != list(b_.shape) or not torch.equal(a_, b_):
+                    V.fail("a second grad call on the same watched object does not return the gradient of the second scalar", dict(desc, core=k_, via="grad.grad" if j % 2 == 0 else "grad.grad_list", got="None" if a_ is None else str(a_.reshape(-1).tolist())[:160], want=str(b_.reshape(-1).tolist())[:160])); break
+            if any((a_ is None) != (f_ is None) or (a_ is not None and not torch.equal(a_, f_)) for a_, f_ in zip(g, first)):
+                V.fail("a second grad call on the same watched object changes the gradient returned by the first call", desc)
         except Exception as ex:
             V.fail("a watched object read several times raises %s" % type(ex).__name__, dict(desc, exc=str(ex)[:200]))
         dist["watched object read several times: " + layout] = dist.get("watched object read several times: " + layout, 0) + 1
